@@ -57,31 +57,33 @@ func (s *incSpec) token(mt pref.MessageType) string {
 }
 
 type pcase struct {
-	Kind   string // vpull | cpull
-	Spec   *mspec // nil: no equivalence configured
-	NoDup  bool   // configured through WithNoDuplicates() instead of WithMessageEquivalence
-	Type   pref.MessageType
-	Mask   []string // top-level field names; nil: no read mask
-	Inc    *incSpec // Collection.Pull only; nil: no WithInclude
-	Cur    proto.Message
-	Writes []proto.Message
-	Ops    []cop
+	Kind        string // vpull | cpull
+	Spec        *mspec // nil: no equivalence configured
+	NoDup       bool   // configured through WithNoDuplicates() instead of WithMessageEquivalence
+	Type        pref.MessageType
+	Mask        []string // top-level field names; nil: no read mask
+	Inc         *incSpec // Collection.Pull only; nil: no WithInclude
+	UpdatesOnly bool     // WithUpdatesOnly(true): no seed; the subscriber holds nothing until the first delivery
+	Cur         proto.Message
+	Writes      []proto.Message
+	Ops         []cop
 }
 
 type pcaseJSON struct {
-	Op     string    `json:"op"`
-	Spec   *mspec    `json:"spec"`
-	NoDup  bool      `json:"no_duplicates,omitempty"`
-	Type   string    `json:"type"`
-	Mask   []string  `json:"mask"`
-	Inc    *incSpec  `json:"include,omitempty"`
-	Cur    msgJSON   `json:"cur"`
-	Writes []msgJSON `json:"writes,omitempty"`
-	Ops    []cop     `json:"ops,omitempty"`
+	Op          string    `json:"op"`
+	Spec        *mspec    `json:"spec"`
+	NoDup       bool      `json:"no_duplicates,omitempty"`
+	Type        string    `json:"type"`
+	Mask        []string  `json:"mask"`
+	Inc         *incSpec  `json:"include,omitempty"`
+	UpdatesOnly bool      `json:"updates_only,omitempty"`
+	Cur         msgJSON   `json:"cur"`
+	Writes      []msgJSON `json:"writes,omitempty"`
+	Ops         []cop     `json:"ops,omitempty"`
 }
 
 func (c pcase) json() pcaseJSON {
-	j := pcaseJSON{Op: c.Kind, Spec: c.Spec, NoDup: c.NoDup, Type: string(c.Type.Descriptor().FullName()), Mask: c.Mask, Inc: c.Inc, Cur: toJSON(c.Cur)}
+	j := pcaseJSON{Op: c.Kind, Spec: c.Spec, NoDup: c.NoDup, Type: string(c.Type.Descriptor().FullName()), Mask: c.Mask, Inc: c.Inc, UpdatesOnly: c.UpdatesOnly, Cur: toJSON(c.Cur)}
 	for _, w := range c.Writes {
 		j.Writes = append(j.Writes, toJSON(w))
 	}
@@ -97,7 +99,7 @@ func (j pcaseJSON) decode() (pcase, error) {
 	if err != nil {
 		return pcase{}, err
 	}
-	c := pcase{Kind: j.Op, Spec: j.Spec, NoDup: j.NoDup, Type: mt, Mask: j.Mask, Inc: j.Inc}
+	c := pcase{Kind: j.Op, Spec: j.Spec, NoDup: j.NoDup, Type: mt, Mask: j.Mask, Inc: j.Inc, UpdatesOnly: j.UpdatesOnly}
 	if c.Cur, err = fromJSON(j.Cur); err != nil {
 		return c, err
 	}
@@ -140,6 +142,9 @@ func (c pcase) readOptions() []resource.ReadOption {
 	if c.Inc != nil {
 		inc := c.Inc
 		ro = append(ro, resource.WithInclude(func(_ string, m proto.Message) bool { return inc.holds(m) }))
+	}
+	if c.UpdatesOnly {
+		ro = append(ro, resource.WithUpdatesOnly(true))
 	}
 	return ro
 }
@@ -205,7 +210,7 @@ type fakeClock struct {
 	t  time.Time
 }
 
-func (f *fakeClock) Now() time.Time { f.mu.Lock(); defer f.mu.Unlock(); return f.t }
+func (f *fakeClock) Now() time.Time  { f.mu.Lock(); defer f.mu.Unlock(); return f.t }
 func (f *fakeClock) set(t time.Time) { f.mu.Lock(); f.t = t; f.mu.Unlock() }
 
 var t0 = time.Unix(1700000000, 0).UTC()
@@ -429,7 +434,11 @@ func (c pcase) codeAnswer(out pullOut) string {
 func (c pcase) line(out pullOut) string {
 	parts := []string{c.Kind, c.specToken(), c.filterToken()}
 	if c.Kind == "vpull" {
-		parts = append(parts, encTop(c.Cur))
+		if c.UpdatesOnly {
+			parts = append(parts, "nil") // no seed: the loop starts with last = nil whatever is stored
+		} else {
+			parts = append(parts, encTop(c.Cur))
+		}
 		for _, e := range out.events {
 			parts = append(parts, encTop(e))
 		}
@@ -466,7 +475,7 @@ func (c pcase) monitor(ms *monitors, out pullOut) string {
 	held := map[string]proto.Message{}
 	heldIsSeed := false
 	if c.Kind == "vpull" {
-		if c.Cur != nil {
+		if c.Cur != nil && !c.UpdatesOnly {
 			if len(out.seed) != 1 {
 				ms.delivery.Violate("C16/Value.Pull/seed-count", "expected exactly one seed value", in, "1", fmt.Sprint(len(out.seed)))
 				return c.codeAnswer(out)
@@ -641,6 +650,13 @@ func (g *gen) pcase() pcase {
 	}
 	c.Spec, c.NoDup = g.pullSpec()
 	c.Mask = g.mask(mt, base)
+	if c.Kind == "vpull" && g.r.Intn(5) == 0 {
+		c.UpdatesOnly = true
+		if g.r.Intn(2) == 0 && len(c.Writes) > 0 && c.Cur != nil {
+			// the first write stores the value that is already there: the subscriber holds nothing, so it is news
+			c.Writes[0] = proto.Clone(c.Cur)
+		}
+	}
 	return c
 }
 
@@ -715,7 +731,7 @@ func (g *gen) pcaseInclude() pcase {
 
 func runPull(f lib.Flags, res *lib.Result, drv *lib.Driver, ms *monitors) {
 	tie := res.Tie("pull-equivalence", "K1",
-		"random runs of Value.Pull (initial value or none, 1-6 Sets) and Collection.Pull (1-7 Add/Update/Delete on two ids) with backpressure, equivalence = none | WithNoDuplicates | Equal() | Equal(tolerances around the written differences) configured through WithMessageEquivalence or WithEquivalence(Comparer), read mask = none | 1-3 top-level fields; each write is the previous value mutated in 0-2 places; every third run is a Collection.Pull with WithInclude(float field gt/lt/ge threshold), equivalence none | exact | FloatValueApprox around the written steps, writes nudging the compared field, threshold on / just below / just above a written value, optional read mask (with or without the compared field). The model gets the event values the code produced and must reproduce the delivered/suppressed decision of every event. Non-trivial: distinct runs with an equivalence configured")
+		"random runs of Value.Pull (initial value or none, 1-6 Sets; every 5th with WithUpdatesOnly: no seed, the subscriber holds nothing, half of them first re-writing the stored value) and Collection.Pull (1-7 Add/Update/Delete on two ids) with backpressure, equivalence = none | WithNoDuplicates | Equal() | Equal(tolerances around the written differences) configured through WithMessageEquivalence or WithEquivalence(Comparer), read mask = none | 1-3 top-level fields; each write is the previous value mutated in 0-2 places; every third run is a Collection.Pull with WithInclude(float field gt/lt/ge threshold), equivalence none | exact | FloatValueApprox around the written steps, writes nudging the compared field, threshold on / just below / just above a written value, optional read mask (with or without the compared field). The model gets the event values the code produced and must reproduce the delivered/suppressed decision of every event. Non-trivial: distinct runs with an equivalence configured")
 	g := &gen{r: lib.NewRand(f.Seed + 104729)}
 	n := f.N(500, 6000)
 	for i := 0; i < n; i++ {
